@@ -8,7 +8,7 @@ use crate::refmodel::*;
 use engeom::common::kd_tree::{KdTree, KdTreeSearch, PartialKdTree};
 use engeom::common::poisson_disk::sample_poisson_disk;
 use engeom::common::AngleDir;
-use engeom::geom2::hull::{ball_pivot_with_centers_2d, convex_hull_2d, farthest_pair_indices, point_order_direction, BallPivotEnd, BallPivotStart};
+use engeom::geom2::hull::{ball_pivot_2d, ball_pivot_fill_gaps_2d, ball_pivot_with_centers_2d, convex_hull_2d, farthest_pair_indices, point_order_direction, BallPivotEnd, BallPivotStart};
 use engeom::verif;
 use engeom::{Curve2, Mesh, Point2, Point3};
 use serde::{Deserialize, Serialize};
@@ -342,6 +342,43 @@ fn judge_polygon(case: &Case, l: &mut Local) {
                     ok &= pts.iter().all(|p| d2(p, c) >= rad - 1e-9);
                 }
                 l.check("every pivot step has its centre one radius from both hull points and no point strictly inside", "", ok && worst <= 1e-9, mk, || format!("r {}: points {:?} indices {:?} centres {:?}, worst radius error {:e}", rad, pts, idx, centres, worst));
+                // the two other spellings of the same walk: indices only, and the outline filled along the balls
+                match guarded(|| ball_pivot_2d(&pts, BallPivotStart::StartOnConvex, BallPivotEnd::EndOnRepeat, AngleDir::Ccw, rad).map_err(|e| e.to_string())) {
+                    Ok(Ok(i2)) => {
+                        l.check("the index-only pivot reports the same hull points", "", i2 == idx, mk, || format!("r {}: {:?} vs {:?}", rad, i2, idx));
+                    }
+                    other => {
+                        l.check("the index-only pivot reports the same hull points", "missing", false, mk, || format!("r {}: {:?}", rad, other));
+                    }
+                }
+                let spacing = rad / 2.0;
+                match guarded(|| ball_pivot_fill_gaps_2d(&pts, BallPivotStart::StartOnConvex, BallPivotEnd::EndOnRepeat, AngleDir::Ccw, rad, spacing).map_err(|e| e.to_string())) {
+                    Ok(Ok(fill)) => {
+                        // every filled point is a hull point or lies on the ball of its step; neighbours are no
+                        // farther apart than the spacing; the hull points appear in order
+                        let mut k = 0usize;
+                        let mut good = !fill.is_empty() && centres.len() + 1 == idx.len();
+                        let mut gap: f64 = 0.0;
+                        for (j, q) in fill.iter().enumerate() {
+                            if k < idx.len() && d2(q, &pts[idx[k]]) <= 1e-12 {
+                                k += 1;
+                            } else if k >= 1 && k - 1 < centres.len() {
+                                good &= (d2(q, &centres[k - 1]) - rad).abs() <= 1e-9;
+                            } else {
+                                good = false;
+                            }
+                            if j > 0 {
+                                gap = gap.max(d2(q, &fill[j - 1]));
+                            }
+                        }
+                        good &= k == idx.len();
+                        l.bucket("ball pivot outline with filled gaps");
+                        l.check("the filled outline visits the hull points in order, fills along the balls and leaves no gap above the spacing", "", good && gap <= spacing + 1e-9, mk, || format!("r {}: hull indices {:?}, {} filled points, {} hull points matched, largest gap {} (spacing {})", rad, idx, fill.len(), k, gap, spacing));
+                    }
+                    other => {
+                        l.check("the filled outline visits the hull points in order, fills along the balls and leaves no gap above the spacing", "missing", false, mk, || format!("r {}: {:?}", rad, other.map(|r| r.map(|f| f.len()))));
+                    }
+                }
             }
         }
     }
@@ -724,7 +761,7 @@ pub fn run(tier: Tier) -> i32 {
     let mut cx = Ctx::new("C15", tier, "exploration");
     cx.rule = "kd-trees: every multiset of <= 4 points of the 3x3 lattice and <= 3 of the 2x2x2 lattice (duplicates included), 4 structured large sets (8x8 grid, 40 duplicates, 1000 collinear, two clusters) x a half-integer query grid x k in {1,2,3,n,n+2} x 5 radii; partial tree: every ordered subset of <= 4 of 6 points; Poisson disk: every ordering of every subset (2..5) of 6 lattice points x 4 radii; hulls: every subset of 3..6 lattice points (+ duplicates); farthest pair on the hull of every subset of 3..4 (thorough 5) points of a 5x5 lattice given as a polygon from every start vertex; every simple lattice polygon with <= 5 (thorough 6) vertices in both orientations for order detection, from_points_ccw and ball pivot at 3 radii; mesh sampling with the RNG owned by the explorer: all 216 draw triples per mesh for sample_uniform, dense sampling at 3 spacings, the Poisson sampler's shuffle explored with <= 2 non-default draws. distinct = distinct cases".into();
     cx.bounds = json!({"kd2_multiset": 4, "kd3_multiset": 3, "partial_subset": 4, "poisson_subset": 5, "polygon_vertices": tier.pick(5, 6), "rng_alphabet": 6, "shuffle_deviations": 2});
-    cx.require(&["kd-tree with duplicate points", "kd-tree with distinct points", "3D kd-tree", "structured large kd-tree", "kd-tree over gridded mesh samples", "index-remapped partial tree", "poisson-disk ordering", "collinear point set", "point set with duplicates", "general point set", "convex polygon given directly, every start vertex", "counter-clockwise simple polygon", "clockwise simple polygon", "ball pivot run", "scripted uniform draw", "dense sampling", "scripted shuffle of the mesh Poisson sampler"]);
+    cx.require(&["kd-tree with duplicate points", "kd-tree with distinct points", "3D kd-tree", "structured large kd-tree", "kd-tree over gridded mesh samples", "index-remapped partial tree", "poisson-disk ordering", "collinear point set", "point set with duplicates", "general point set", "convex polygon given directly, every start vertex", "counter-clockwise simple polygon", "clockwise simple polygon", "ball pivot run", "ball pivot outline with filled gaps", "scripted uniform draw", "dense sampling", "scripted shuffle of the mesh Poisson sampler"]);
     cx.assume("ties exactly on the k-th neighbour or the radius boundary are gray (either answer accepted); uniformity beyond 'the face is the inverse-CDF image of the draw' is not claimed");
     let cs = cases(tier);
     let l = sweep(&cs, judge);
